@@ -102,10 +102,15 @@ def install_re_models(world):
     def codecs_decode(it, node, data, encoding='utf-8', errors='strict'):
         world.trusted_used.add(
             'T-conv: codecs.decode(str, "unicode-escape") returns a string '
-            'or raises UnicodeDecodeError')
+            'or raises UnicodeDecodeError (ill-formed escape) or '
+            'UnicodeEncodeError (the text is first encoded: a lone '
+            'surrogate code point in it cannot be)')
         bad = z3.Bool(S.fresh_name('codec_rejects'))
         if it.branch(bad):
             it.raise_('UnicodeDecodeError', node=node)
+        bad2 = z3.Bool(S.fresh_name('codec_cannot_encode'))
+        if it.branch(bad2):
+            it.raise_('UnicodeEncodeError', node=node)
         return SStr(models.apply_uf('codecs.decode', (data,), 'Str').t)
     world.lib[('codecs', 'decode')] = Model('codecs.decode', codecs_decode,
                                             True)
